@@ -7,7 +7,7 @@ use std::sync::{Arc, Mutex};
 use std::task::{Context, Poll, Waker};
 
 #[derive(Clone, Copy, Debug, PartialEq)]
-pub enum Rd { N(usize), All, Pending }
+pub enum Rd { N(usize), All, Pending, Err }
 #[derive(Clone, Copy, Debug, PartialEq)]
 pub enum Wr { N(usize), All, Pending, Zero, Err }
 #[derive(Clone, Copy, Debug, PartialEq)]
@@ -50,6 +50,7 @@ impl AsyncRead for MockR {
         if cap == 0 { s.events.push("R0:0".into()); return Poll::Ready(Ok(0)); }
         let a = s.rd.pop_front().unwrap_or(Rd::All);
         if a == Rd::Pending { s.events.push(format!("R{cap}:P")); if s.auto_wake { cx.waker().wake_by_ref(); } return Poll::Pending; }
+        if a == Rd::Err { s.events.push(format!("R{cap}:E")); return Poll::Ready(Err(io::ErrorKind::TimedOut.into())); }
         if s.input.is_empty() {
             if s.hold { s.events.push(format!("R{cap}:W")); s.read_waker = Some(cx.waker().clone()); s.waiting_for_input = true; return Poll::Pending; }
             return match s.end {
@@ -116,6 +117,6 @@ pub fn io_kind(e: &io::Error) -> String {
     }
 }
 
-pub fn parse_rd(s: &str) -> Vec<Rd> { if s == "-" { vec![] } else { s.split(',').map(|x| match x { "A" => Rd::All, "P" => Rd::Pending, n => Rd::N(n.parse().unwrap()) }).collect() } }
+pub fn parse_rd(s: &str) -> Vec<Rd> { if s == "-" { vec![] } else { s.split(',').map(|x| match x { "A" => Rd::All, "P" => Rd::Pending, "E" => Rd::Err, n => Rd::N(n.parse().unwrap()) }).collect() } }
 pub fn parse_wr(s: &str) -> Vec<Wr> { if s == "-" { vec![] } else { s.split(',').map(|x| match x { "A" => Wr::All, "P" => Wr::Pending, "Z" => Wr::Zero, "E" => Wr::Err, n => Wr::N(n.parse().unwrap()) }).collect() } }
 pub fn parse_fl(s: &str) -> Vec<Fl> { if s == "-" { vec![] } else { s.split(',').map(|x| match x { "O" => Fl::Ok, "P" => Fl::Pending, _ => Fl::Err }).collect() } }
